@@ -1,0 +1,84 @@
+//! Read-only observation hooks for external verification harnesses.
+//!
+//! Everything in here is compiled only with the `verif-hooks` cargo feature. Nothing in this
+//! module changes the behaviour of the map; it only reports internal state.
+
+use crate::map::{make_hash, HashMap};
+use crate::set::HashSet;
+use core::borrow::Borrow;
+use core::hash::{BuildHasher, Hash};
+
+/// The number of elements moved out of the old table per key-adding call.
+pub const R: usize = crate::raw::VERIF_R;
+
+/// A snapshot of the old (pre-resize) table, while it exists.
+#[derive(Clone, Copy, Debug, PartialEq, Eq)]
+pub struct OldState {
+    /// Elements still stored in the old table.
+    pub len: usize,
+    /// Bucket count of the old table.
+    pub buckets: usize,
+    /// Number of elements the cached move cursor believes it still has to yield.
+    pub cursor_remaining: usize,
+}
+
+/// A snapshot of the internal state of a map.
+#[derive(Clone, Copy, Debug, PartialEq, Eq)]
+pub struct State {
+    /// Elements stored in the main table.
+    pub main_len: usize,
+    /// `capacity()` of the main table.
+    pub main_capacity: usize,
+    /// Bucket count of the main table.
+    pub main_buckets: usize,
+    /// The old table, if one is present.
+    pub old: Option<OldState>,
+}
+
+impl<K, V, S> HashMap<K, V, S> {
+    /// Reports the internal table state.
+    pub fn verif_state(&self) -> State {
+        self.table.verif_state()
+    }
+}
+
+impl<K, V, S> HashMap<K, V, S>
+where
+    K: Eq + Hash,
+    S: BuildHasher,
+{
+    /// Reports where `k` is stored: `Some(true)` for the old table, `Some(false)` for the main
+    /// table, `None` if absent.
+    pub fn verif_in_old<Q: ?Sized>(&self, k: &Q) -> Option<bool>
+    where
+        K: Borrow<Q>,
+        Q: Hash + Eq,
+    {
+        let hash = make_hash::<K, Q, S>(&self.hash_builder, k);
+        self.table
+            .find(hash, |x| k.eq(x.0.borrow()))
+            .map(|b| b.will_move())
+    }
+}
+
+impl<T, S> HashSet<T, S> {
+    /// Reports the internal table state.
+    pub fn verif_state(&self) -> State {
+        self.map.verif_state()
+    }
+}
+
+impl<T, S> HashSet<T, S>
+where
+    T: Eq + Hash,
+    S: BuildHasher,
+{
+    /// Reports where `value` is stored, see [`HashMap::verif_in_old`].
+    pub fn verif_in_old<Q: ?Sized>(&self, value: &Q) -> Option<bool>
+    where
+        T: Borrow<Q>,
+        Q: Hash + Eq,
+    {
+        self.map.verif_in_old(value)
+    }
+}
